@@ -1,6 +1,7 @@
 package gossipsim
 
 import (
+	"bytes"
 	"fmt"
 	"image/color"
 	"os"
@@ -692,7 +693,11 @@ func (s *Sim) remember(w []byte, label string) {
 	case typeChanUpdate:
 		if m, ok := parseCU(w); ok {
 			if since, z := s.zombieSince[m.scid]; z && m.ts+uint32(pruneHorizon/time.Second) >= s.nowTs() && m.ts >= since-uint32(pruneHorizon/time.Second) {
-				s.liveUpd[m.scid] = true
+				// only an update signed by the node that owns its
+				// direction can bring a zombie back
+				if ec := s.everChan[m.scid]; ec != nil && m.signedBy(ec.node[m.dir()][:]) && bytes.Equal(m.chainHash, s.u.chainHash[:]) {
+					s.liveUpd[m.scid] = true
+				}
 			}
 			c := s.proj.chans[m.scid]
 			if c == nil || c.pol[m.dir()] == nil || c.pol[m.dir()].ts < m.ts {
